@@ -321,6 +321,8 @@ type Spec[C any] struct {
 	Gen     func(t *rapid.T) C
 	Check   func(h *H, c C)
 	Timeout time.Duration // per-case watchdog (0: none)
+	// ClassifyPanic may refine the signature of a recovered panic using the case.
+	ClassifyPanic func(sig string, c C) string
 	// SampleEvery keeps roughly this many samples (default 6).
 }
 
@@ -345,6 +347,9 @@ func runCase[C any](r *Rec, rt *rapid.T, s *Spec[C], c C) (failed bool, msg stri
 				default:
 					st := debug.Stack()
 					sig := PanicSig(st)
+					if s.ClassifyPanic != nil {
+						sig = s.ClassifyPanic(sig, c)
+					}
 					func() {
 						defer func() {
 							if y := recover(); y != nil {
